@@ -5,7 +5,7 @@ operations on constrained scalars, of derivation chains, and of constrained cons
 """
 import itertools
 
-from mc.core.runner import Result, pyasn1_site, exc_text
+from mc.core.runner import guarded, Result, pyasn1_site, exc_text
 from mc.model import constraints as C
 
 from pyasn1 import error as pyerr
@@ -476,10 +476,19 @@ def part_d(tier, i, n, seed, R, idx0):
 
 def shard(tier, i, n, seed):
     R = Result()
-    idx = part_a(tier, i, n, seed, R)
-    idx = part_b(tier, i, n, seed, R, idx)
-    idx = part_c(tier, i, n, seed, R, idx)
-    part_d(tier, i, n, seed, R, idx)
+    box = {'idx': 0}
+
+    def run(name, fn, *a):
+        def go():
+            box['idx'] = fn(*a)
+        before = box['idx']
+        guarded(R, go, {'part': name}, {'part:' + name}, before)
+        if box['idx'] is None or box['idx'] == before:
+            box['idx'] = before + 1000000
+    run('a', lambda: part_a(tier, i, n, seed, R))
+    run('b', lambda: part_b(tier, i, n, seed, R, box['idx']))
+    run('c', lambda: part_c(tier, i, n, seed, R, box['idx']))
+    run('d', lambda: part_d(tier, i, n, seed, R, box['idx']))
     return R
 
 
